@@ -49,11 +49,13 @@ def run_ag(nruns, plan_by_run, njobs=1, text=None):
             res = ('ok', out)
         except Exception as e:  # noqa
             res = ('raise', type(e).__name__)
-        # wait for worker threads (stderr readers, sibling runs) to finish
+        # what is there at the very moment segment() returns or raises (a command exits on the error: nobody waits for
+        # sibling runs that are still working)
+        left = sorted(os.listdir(work))
+        # then let worker threads (stderr readers, sibling runs) finish before the scratch directory goes
         t0 = time.time()
         while threading.active_count() > nthreads and time.time() - t0 < 5:
             time.sleep(0.02)
-        left = sorted(os.listdir(work))
         return res, left
     finally:
         os.environ.pop('AG_STUB_PLAN', None)
@@ -154,11 +156,11 @@ def run_dpseg_par(nfolds, plan_by_fold, njobs):
         res = ('raise', type(e).__name__)
     finally:
         pass
-    # sibling folds may still be running in their worker: wait for them before looking at the directory
-    t0 = time.time()
-    while os.listdir(par['tmp']) and time.time() - t0 < 1.0:
-        time.sleep(0.05)
+    # what is there at the very moment segment() returns or raises (sibling folds still working included)
     left = sorted(os.listdir(par['tmp']))
+    t0 = time.time()
+    while os.listdir(par['tmp']) and time.time() - t0 < 3.0:
+        time.sleep(0.05)
     for f in left:
         p = os.path.join(par['tmp'], f)
         shutil.rmtree(p, ignore_errors=True) if os.path.isdir(p) else os.remove(p)
@@ -175,6 +177,7 @@ def parallel_scenarios(ck, scs):
             if n >= 2:
                 for nj in (2, 3):
                     res.append((kind, n, plan, nj))
+        res += slow_sibling_scenarios()
         res.sort(key=lambda r: r[0] != 'ag')
         return res
     ag_points = [dict(complete=0, partial=0), dict(complete=1, partial=1), dict(complete=2, partial=0), dict(complete=None), dict(complete=None, late=True)]
@@ -189,8 +192,24 @@ def parallel_scenarios(ck, scs):
                 res.append(('ag', n, {i: dict(ag_points[k % len(ag_points)], how=list(how))}, nj))
                 res.append(('dpseg', n, {i: dict(dp_points[k % len(dp_points)], how=list(how))}, nj))
                 k += 1
+    res += slow_sibling_scenarios()
     # every ag scenario first: once joblib's process pool exists its threads stay in this process
     res.sort(key=lambda r: r[0] != 'ag')
+    return res
+
+
+def slow_sibling_scenarios():
+    """one run (fold) fails at once while its healthy siblings are still working (0.8 s): at the moment the error is
+    raised nothing may be left, and the error must still be the RuntimeError of the failing one"""
+    res = []
+    for n, nj, i, how in ((2, 2, 0, HOWS[0]), (2, 2, 1, HOWS[3]), (3, 3, 1, HOWS[1]), (3, 2, 0, HOWS[2])):
+        slow = {j: {'delay': 0.8} for j in range(n) if j != i}
+        pa = dict(slow)
+        pa[i] = dict(complete=0, partial=0, how=list(how))
+        res.append(('ag', n, pa, nj))
+        pd = dict(slow)
+        pd[i] = dict(written=0, how=list(how))
+        res.append(('dpseg', n, pd, nj))
     return res
 
 
@@ -299,7 +318,7 @@ def main():
                  'Definition scs : list (bool * list how * outcome * bool) := [']
         items = []
         for (kind, n, plan), (res, left) in list(zip(scs, observed)) + [((k, n, p), o) for (k, n, p, nj), o in njobs_obs]:
-            hs = '[' + '; '.join(how_coq(tuple(plan[i]['how']) if i in plan else None) for i in range(n)) + ']'
+            hs = '[' + '; '.join(how_coq(tuple(plan[i]['how']) if i in plan and 'how' in plan[i] else None) for i in range(n)) + ']'
             oc = 'Returned' if res[0] == 'ok' else ('Raised RuntimeError' if res[1] == 'RuntimeError' else 'Raised ValueError')
             items.append('  (%s, %s, %s, %s)' % ('true' if kind == 'ag' else 'false', hs, oc, 'true' if left else 'false'))
         lines.append(';\n'.join(items))
